@@ -73,6 +73,35 @@ func (c *Ctx) installsHandlers(fn *ssa.Function, seen map[*ssa.Function]bool) (p
 	return
 }
 
+// isPingWrite: in writes a websocket ping, directly or through static tree callees.
+func (c *Ctx) isPingWrite(in ssa.Instruction, seen map[*ssa.Function]bool) bool {
+	ci, ok := in.(ssa.CallInstruction)
+	if !ok {
+		return false
+	}
+	if calleeName(ci) == "(*"+gorilla+".Conn).WriteMessage" {
+		if k, ok := constInt(ci.Common().Args[1]); ok && k == 9 { // websocket.PingMessage
+			return true
+		}
+		return false
+	}
+	if _, isCall := in.(*ssa.Call); !isCall {
+		return false
+	}
+	g := staticCallee(ci)
+	if g == nil || !c.P.allFns[g] || seen[g] {
+		return false
+	}
+	seen[g] = true
+	res := false
+	allInstrs(g, func(x ssa.Instruction) {
+		if c.isPingWrite(x, seen) {
+			res = true
+		}
+	})
+	return res
+}
+
 // startsPinger: does calling fn start a goroutine that writes pings in a loop?
 func (c *Ctx) startsPinger(fn *ssa.Function, seen map[*ssa.Function]bool) bool {
 	if fn == nil || seen[fn] {
@@ -84,10 +113,8 @@ func (c *Ctx) startsPinger(fn *ssa.Function, seen map[*ssa.Function]bool) bool {
 		if g, ok := in.(*ssa.Go); ok {
 			if cl := staticCallee(g); cl != nil {
 				allInstrs(cl, func(x ssa.Instruction) {
-					if ci, ok := x.(ssa.CallInstruction); ok && calleeName(ci) == "(*"+gorilla+".Conn).WriteMessage" && inLoop(x.Block()) {
-						if k, ok := constInt(ci.Common().Args[1]); ok && k == 9 { // websocket.PingMessage
-							res = true
-						}
+					if inLoop(x.Block()) && c.isPingWrite(x, map[*ssa.Function]bool{}) {
+						res = true
 					}
 				})
 			}
